@@ -28,6 +28,7 @@ def mk_two_steps(mk, nlevels=1):
         type(S.status).add_attr('restart')
         S.status.slot = 0 if name == 'S' else 1
         S.status.iter = mk.int(f'{name}.iter')
+        S.params.maxiter = mk.int(f'{name}.maxiter')  # the budget may be exceeded (forced continuation): records must not depend on it
         S.status.restarts_in_a_row = mk.int(f'{name}.restarts')
         S.status.restart = mk.bool(f'{name}.restart')
         L = S.levels[0]
@@ -465,7 +466,124 @@ def bounded_filter_sort(tier, seed):
                              bound=f'dictionaries with <= {top} entries over 24 keys (2 slots x 2 times x 2 types x 3 restart generations)', cases=n, failures=bad))
 
 
-CONTRACTS = [HooksBase, DefaultPostStep, DefaultPostIteration, LogRestartsPostStep, LogStepSizePostStep, LogIterationsPostStep,
+class _ErrBase(_HookBase):
+    """error logging hooks: records keyed by the step's END time, own slot, level, iteration, restart count; the value is the norm of
+    (reference solution at that time - freshly computed end value); local error: reference started from a COPY of the step's start value at the step's start time"""
+
+    stubs = ('sweeper.compute_end_point [C02 contract: new uend object]', 'Problem.u_exact(t[, u_init, t_init]) [uninterpreted reference solution; arguments recorded]',
+             'abs(dtype_u) [uninterpreted norm]')
+    callback = 'post_step'
+    suffix = '_post_step'
+
+    def extra_setup(self, st, mk):
+        from contracts.common import cp
+
+        L = st.L
+
+        def cep():
+            L.uend = mk.vec('uend_fresh')
+            st.computed = cp(L.uend)
+
+        L.sweep.compute_end_point = cep
+        L.uend = mk.vec('uend_stale')
+        L.u[0] = mk.vec('u0')
+        st.u0_obj, st.u0 = L.u[0], cp(L.u[0])
+        st.exact_calls = []
+
+        def u_exact(t=None, u_init=None, t_init=None, **kw):
+            r = mk.vec(f'uex{len(st.exact_calls)}')
+            st.exact_calls.append(dict(t=t, u_init=None if u_init is None else cp(u_init), u_init_obj=u_init, t_init=t_init, out=cp(r)))
+            return r
+
+        L.prob.u_exact = u_exact
+
+    def make_hook(self):
+        return cls_of(HK + 'log_errors.py', self._inst['cls'])()
+
+    def build(self, inst, mk):
+        self._inst = inst
+        self.callback = inst['cb']
+        return _HookBase.build(self, inst, mk)
+
+    def prime(self, st):
+        # history: the hook object was last called back for the OTHER step
+        st.h.pre_step(st.S, 0)
+        st.h.pre_comm(st.T, 0)
+
+    def by_type(self, st):
+        out = {}
+        for k, v in self.new_entries(st):
+            out.setdefault(k.type, []).append((k, v))
+        return out
+
+
+class LogGlobalError(_ErrBase):
+    name = 'LogGlobalErrorPostStep.post_step / LogGlobalErrorPostIter.post_iteration'
+    target = (HK + 'log_errors.py', 'LogError.log_global_error')
+
+    def instances(self, tier):
+        return [dict(cls='LogGlobalErrorPostStep', cb='post_step', suffix='_post_step'), dict(cls='LogGlobalErrorPostIter', cb='post_iteration', suffix='_post_iteration')]
+
+    def post(self, st, old, result, exc):
+        S, L, sfx = st.S, st.L, st.inst['suffix']
+        yield 'returns_normally', exc is None
+        if exc is not None:
+            return
+        by = self.by_type(st)
+        by.pop('_recomputed', None)
+        by.pop('niter', None)
+        by.pop('residual_post_step', None)
+        by.pop('residual_post_iteration', None)
+        yield 'record_types', set(by) == {f'e_global{sfx}', f'e_global_rel{sfx}'} and all(len(v) == 1 for v in by.values())
+        if set(by) != {f'e_global{sfx}', f'e_global_rel{sfx}'}:
+            return
+        yield 'reference_solution_asked_at_the_end_time_of_the_step', len(st.exact_calls) == 1 and bool(seq(st.exact_calls[0]['t'], L.time + L.dt)) is True and st.exact_calls[0]['u_init'] is None
+        if len(st.exact_calls) != 1:
+            return
+        ref = st.exact_calls[0]['out']
+        k, v = by[f'e_global{sfx}'][0]
+        yield from self.key_clauses(st, k, L.time + L.dt, 0, S.status.iter, f'e_global{sfx}', 'abs')
+        yield 'abs:value_is_norm_of_reference_minus_fresh_end_value', seq(v, abs(ref - st.computed))
+        k, v = by[f'e_global_rel{sfx}'][0]
+        yield from self.key_clauses(st, k, L.time + L.dt, 0, S.status.iter, f'e_global_rel{sfx}', 'rel')
+        yield 'rel:value_is_relative_to_the_reference', seq(v, abs(ref - st.computed) / abs(ref))
+
+    def canary(self, st, old, result, exc):
+        by = self.by_type(st)
+        k, v = by[f"e_global{st.inst['suffix']}"][0]
+        yield 'canary:keyed_at_start_time', seq(k.time, st.L.time)
+
+
+class LogLocalError(_ErrBase):
+    name = 'LogLocalErrorPostStep.post_step / LogLocalErrorPostIter.post_iteration'
+    target = (HK + 'log_errors.py', 'LogError.log_local_error')
+    def instances(self, tier):
+        return [dict(cls='LogLocalErrorPostStep', cb='post_step', suffix='_post_step'), dict(cls='LogLocalErrorPostIter', cb='post_iteration', suffix='_post_iteration')]
+
+    def post(self, st, old, result, exc):
+        S, L, sfx = st.S, st.L, st.inst['suffix']
+        yield 'returns_normally', exc is None
+        if exc is not None:
+            return
+        by = self.by_type(st)
+        recs = by.get(f'e_local{sfx}', [])
+        yield 'one_local_error_record', len(recs) == 1
+        if len(recs) != 1:
+            return
+        yield 'reference_started_from_the_steps_start_value_and_time', (len(st.exact_calls) == 1 and bool(seq(st.exact_calls[0]['t'], L.time + L.dt)) is True and st.exact_calls[0]['u_init'] is not None
+                                                                        and bool(veq(st.exact_calls[0]['u_init'], st.u0)) is True and bool(seq(st.exact_calls[0]['t_init'], L.time)) is True)
+        if len(st.exact_calls) != 1:
+            return
+        yield 'reference_gets_a_copy_of_the_start_value', st.exact_calls[0]['u_init_obj'] is not st.u0_obj and L.u[0] is st.u0_obj and bool(veq(L.u[0], st.u0)) is True
+        k, v = recs[0]
+        yield from self.key_clauses(st, k, L.time + L.dt, 0, S.status.iter, f'e_local{sfx}', 'local')
+        yield 'value_is_norm_of_reference_minus_fresh_end_value', seq(v, abs(st.exact_calls[0]['out'] - st.computed))
+
+    def canary(self, st, old, result, exc):
+        yield 'canary:no_reference_call', len(st.exact_calls) == 0
+
+
+CONTRACTS = [LogGlobalError, LogLocalError, HooksBase, DefaultPostStep, DefaultPostIteration, LogRestartsPostStep, LogStepSizePostStep, LogIterationsPostStep,
              LogSolutionPostStep, LogEmbeddedErrorPostStep, LogWorkPostStep, ReturnStats]
 EXTRAS = [bounded_filter_sort]
 UNDECIDED = ['uniqueness of keys across accepted steps follows from C06 (strictly increasing start times) and C09 (restart counter): composition not machine-checked',
